@@ -389,6 +389,7 @@ BAD_EXPR = {"lua": ["1 +", "nosuchfn()", "(1)(2)"], "promela": ["1 +", "nosuchva
 BAD_SEND = [({"type": "nosuch-ioproc"}, "error.execution"), ({"target": "bogus-target"}, "error.execution"),
             ({"target": "#_nosuchinvoke"}, "error.communication")]
 # sends whose namelist / <param> cannot be evaluated (datamodels with expressions only)
+BAD_SRC = "file:///verif/build/no-such-resource.txt"    # a <data src> that cannot be fetched
 BAD_SEND_DM = [({"namelist": "\"foo"}, None), ({}, "1 +"), ({}, "nosuchfn()")]
 
 
@@ -396,6 +397,8 @@ def failure_of(e, dm):
     """-> error event name if this element (as rendered) is one of the planted failing elements, else None"""
     if e.tag in ("log", "assign", "data") and e.attrs.get("expr") in BAD_EXPR.get(dm, []):
         return "error.execution"
+    if e.tag == "data" and e.attrs.get("src") == BAD_SRC:
+        return "error.communication"
     if e.tag in ("if", "elseif") and e.attrs.get("cond") in BAD_EXPR.get(dm, []):
         return "error.execution"
     if e.tag == "send":
@@ -426,9 +429,26 @@ def plant_failure(root, r, dm):
             root.children.insert(0, dmel[0])
             dmel[0].parent = root
         at = {"id": "vbad", "expr": r.choice(BAD_EXPR[dm])}
+        if r.random() < 0.35:
+            at = {"id": "vbad", "src": BAD_SRC}
         if dm == "promela":
             at["type"] = "int"
-        dmel[0].add(El("data", at))
+        # anywhere among the other declarations, also inside a state (late binding initialises it on entry)
+        homes = dmel[:1]
+        if root.attrs.get("binding") == "late" or r.random() < 0.25:
+            for st in [e for e in root.walk() if e.tag == "state"][:6]:
+                if r.random() < 0.3:
+                    sd = [c for c in st.children if c.tag == "datamodel"]
+                    if not sd:
+                        sd = [El("datamodel")]
+                        st.children.insert(0, sd[0])
+                        sd[0].parent = st
+                    homes = sd[:1]
+                    break
+        pos = r.randint(0, len(homes[0].children))
+        d = El("data", at)
+        homes[0].children.insert(pos, d)
+        d.parent = homes[0]
         return "data"
     if not blocks:
         return None
